@@ -133,7 +133,7 @@ func NewExplorer(prog *ssa.Program, sizes types.Sizes) *Explorer {
 		Prog: prog, Sizes: sizes,
 		Workers: runtime.NumCPU(), SolverKind: "z3-new", TimeoutMs: 60000,
 		MaxDecisions: 4000, MaxSteps: 400000, MaxPaths: 2000000, MaxConcretize: 16,
-		MaxWitnesses: 20, MaxCexPerSite: 6, MemK: 64, MemC: 1 << 16,
+		MaxWitnesses: 20, MaxCexPerSite: 6, MemK: 64, MemC: 1<<20 + 1<<16,
 		InitPkgs: map[string]bool{}, HarnessPkgs: map[string]bool{}, PerPathInit: map[string]bool{},
 	}
 	ex.cond = sync.NewCond(&ex.mu)
